@@ -8,6 +8,7 @@ hand-rolled base64/percent encoders.  Nothing in this module imports liquid2.
 
 from __future__ import annotations
 
+import decimal
 import math
 import re
 from decimal import Decimal
@@ -130,6 +131,21 @@ def representable(want: Fraction) -> bool:
         return True
     a = abs(want)
     return Fraction(1, 10**290) < a < Fraction(10**290)
+
+
+HP = decimal.Context(prec=6000)  # wide enough for any two doubles: exact +, -, *
+IMPL_DIGITS = 28  # a result with more significant digits cannot be demanded digit for digit
+
+
+def dec_op(op: str, a: Decimal, b: Decimal) -> tuple[Decimal, int]:
+    """Exact decimal result of plus/minus/times and its number of significant digits."""
+    r = {"plus": HP.add, "minus": HP.subtract, "times": HP.multiply}[op](a, b)
+    return r, len(r.normalize(HP).as_tuple().digits)
+
+
+def frac_to_dec(x: Fraction) -> Decimal:
+    """Exact Decimal of a rational whose denominator is 2^i * 5^j."""
+    return HP.divide(Decimal(x.numerator), Decimal(x.denominator))
 
 
 def floor_frac(x: Fraction) -> int:
